@@ -388,24 +388,30 @@ def _stepper_to_hamiltonian(ctx, C, entry: FuncInfo, role_of: dict) -> None:
                        "the vector exponentiated is the stepper's state argument" if oks else
                        f"krylov_exp acts on {show(st)[:60]}", entry=entry.qualname)
     ctx.require(n >= 1, f"ROLE-sv: no Hamiltonian constructor reached from {entry.qualname}")
-    # exponent: op(x) = -1j * dt * (H x)
-    for sub in prog.funcs.values():
-        if sub.parent is not None and sub.parent.cls is not None and sub.parent.cls.qualname == C.qualname \
-                and sub.name == "op" and sub.parent.name in ("evolve", "apply"):
-            rets = [n_ for n_ in ast.walk(sub.node) if isinstance(n_, ast.Return)]
-            ctx.require(len(rets) == 1, f"{sub.qualname}: expected a single return")
-            itx = Interp(prog, None, inline=lambda c, r, d: False)
-            px = itx.run(sub)[0]
-            mons = monomials(px.retval)
-            ok = False
-            detail = show(px.retval)[:100]
-            if len(mons) == 1:
-                (m, c), = mons.items()
-                ndt = sum(1 for a in m if show(a) == "dt")
-                ok = abs(c - (-1j)) < 1e-12 and ndt == 1
-            ctx.ob("UNITS-sv", f"{C.name} exponent", sub.loc(), ok,
-                   "the generator is −i·dt·(H x) with the stepper's dt" if ok else
-                   f"the generator handed to krylov_exp is {detail}, not −i·dt·(H x)", entry=sub.parent.qualname)
+    # exponent: the callable handed to krylov_exp is x ↦ -1j * dt * (H x)
+    gens = set()
+    for p in paths:
+        for e in p.events:
+            if e.kind == "call" and e.name == "emu_base.math.krylov_exp.krylov_exp":
+                g = strip_typed(e.args.get("op"))
+                if g[0] == "localfunc":
+                    gens.add(g[1])
+    ctx.require(len(gens) == 1, f"UNITS-sv: generator passed to krylov_exp by {C.name} not identified: {sorted(gens)}")
+    sub = prog.funcs.get(next(iter(gens)))
+    ctx.require(sub is not None, "UNITS-sv: nested generator function not found")
+    itx = Interp(prog, None, inline=lambda c, r, d: False)
+    px = itx.run(sub)[0]
+    mons = monomials(px.retval)
+    ok = False
+    detail = show(px.retval)[:100]
+    if len(mons) == 1:
+        (m, c), = mons.items()
+        # the closure variable dt of the enclosing stepper method
+        ndt = sum(1 for a in m if show(a) == "dt")
+        ok = abs(c - (-1j)) < 1e-12 and ndt == 1
+    ctx.ob("UNITS-sv", f"{C.name} exponent", sub.loc(), ok,
+           "the generator is −i·dt·(H x) with the stepper's dt" if ok else
+           f"the generator handed to krylov_exp is {detail}, not −i·dt·(H x)", entry=sub.parent.qualname)
 
 
 # =========================================================================== emu-mps
